@@ -114,3 +114,33 @@ package utils
 //@   ensures stable_reader: implies(tbStable(message), seqeq(content(result), old(rcontent(message))))
 //@   ensures reader: implies(tbOther(message) && !impl(message, io.WriterTo) && impl(message, io.Reader), !rbad(message) && seqeq(content(result), old(rcontent(message))))
 //@   ensures_panic unsupported_or_error: true
+
+// ---------------------------------------------------------------------------
+// ExactReader (C04/C08): the frame reader the length-delimited decoders hand down. Its stream (in
+// the model of io.contracts) is DEFINED at construction from the underlying reader's - the next
+// min(n, available) bytes, ending with a non-EOF error iff the underlying stream is shorter than
+// n - and Read is PROVED to behave as the io.Reader contract says with respect to that definition
+// (same clause texts as the assumed "iface io.Reader.Read"), so consumers reasoning with the
+// assumed interface contract are right about this implementation.
+//@ property C04 C08
+//@ ghost ebase(ref) int const
+//@ spec func exAvail0(e *exactReader) int = rend(e.r) - ebase(e)
+//@ spec func exInv(e *exactReader) bool = e != nil && e.r != nil && rwf(e.r) && lsrc(e) == e.r && ebase(e) >= 0 && 0 <= rpos(e) && rpos(e) <= rend(e) && rpos(e.r) == ebase(e) + rpos(e) && rend(e) == ite(llim(e) <= 0, 0, min(llim(e), exAvail0(e))) && rbad(e) == (llim(e) > 0 && exAvail0(e) < llim(e)) && e.n == ite(llim(e) <= 0, llim(e), llim(e) - rpos(e)) && llim(e) <= 1<<48
+//@ spec func exData(e *exactReader) bool = forall(i, 0, rend(e), rdata(e)[i] == rdata(e.r)[ebase(e) + i])
+//@ func ExactReader
+//@   requires r != nil && rwf(r) && n <= 1<<48
+//@   ensures shape: is(result, *exactReader) && fresh(as(result, *exactReader)) && as(result, *exactReader) != nil && as(result, *exactReader).r == r && as(result, *exactReader).n == n
+//@   ensures_assumed stream_definition: lsrc(result) == r && lsrc_t(result) == typeof(r) && llim(result) == n && ebase(result) == rpos(r) && rpos(result) == 0 && rend(result) == ite(n <= 0, 0, min(n, ravail(r))) && rbad(result) == (n > 0 && ravail(r) < n)
+//@   ensures_assumed stream_data: forall(i, 0, rend(result), rdata(result)[i] == rdata(r)[rpos(r) + i])
+//@ func (*exactReader).Read
+//@   requires exInv(e) && exData(e)
+//@   may_panic true
+//@   modifies exactReader.n, ghost rpos, slice p
+//@   after exit ghostset rpos(x) = ite(x == e, old(rpos(e)) + n, rpos(x))
+//@   ensures count: 0 <= n && n <= len(p) && rpos(e) == old(rpos(e)) + n && rpos(e) <= rend(e)
+//@   ensures data: forall(i, 0, n, p[i] == rdata(e)[old(rpos(e)) + i])
+//@   ensures eof: implies(err == io.EOF, rpos(e) == rend(e) && !rbad(e))
+//@   ensures progress: implies(n == 0 && len(p) > 0, err != nil)
+//@   ensures end_reported: implies(old(rpos(e)) == rend(e) && len(p) > 0, err != nil && (err == io.EOF) == !rbad(e))
+//@   ensures truncation_is_an_error: implies(err == io.EOF, e.n <= 0)
+//@   ensures keeps: exInv(e)
